@@ -20,7 +20,7 @@ ASSUMPTIONS = [
     "input subtomogram numbers are unique (the parent is recorded by number)",
     "the order of output rows is not part of the statement; outputs are matched to parents through geom5 and to subunit index through geom2",
 ]
-BUDGET = {"quick": {"examples": 550, "seconds": 85}, "thorough": {"examples": 2500, "seconds": 540}}
+BUDGET = {"quick": {"examples": 1100, "seconds": 85}, "thorough": {"examples": 2500, "seconds": 540}}
 EXHAUSTIVE = "every n in 1..64 in each of the four spellings (int, float, 'Cn', 'cn') on a fixed 3-particle list with a general offset"
 
 offset = st.one_of(
